@@ -93,6 +93,11 @@ theorem inputs_as_declared (st : St) (outs : List OutDecl) (m : MirProg) (h : co
   obtain ⟨h1, h2, _, hc⟩ := compile_acc st outs m h
   exact ⟨h2, h1, fun t ht e he n p d ty heq => ((hc t ht e he).1 n p d ty heq).1⟩
 
+/-- Every party named by a listed input or by an output is listed. -/
+theorem parties_cover (st : St) (outs : List OutDecl) (m : MirProg) (h : compile st outs = .ok m) :
+    (∀ i ∈ m.inputs, i.party ∈ m.parties) ∧ (∀ o ∈ m.outputs, o.party ∈ m.parties) :=
+  compile_parties_cover st outs m h
+
 example : addInput { inputs := [("P", [⟨"x", .scalar "SecretInteger", "P", "", 1⟩])], parties := ["P"] }
     ⟨"x", .scalar "SecretInteger", "Q", "", 2⟩ = .error .compiler := by rfl
 
